@@ -6,32 +6,16 @@ Local Open Scope nat_scope.
 (** ** flags *)
 Lemma any_for a b : any_flag (for_ a b) = false -> any_flag a = false /\ any_flag b = false.
 Proof.
-  unfold any_flag, for_; cbn. intros H.
-  repeat (apply orb_false_iff in H; destruct H as [H ?]).
-  repeat match goal with H : _ || _ = false |- _ => apply orb_false_iff in H; destruct H end.
-  split; repeat (apply orb_false_iff; split); auto.
+  destruct a as [a1 a2 a3], b as [b1 b2 b3]; unfold any_flag, for_; cbn.
+  destruct a1, a2, a3, b1, b2, b3; cbn; intros H; try discriminate; auto.
 Qed.
 
-Lemma any_std f : any_flag f = false -> k_std_dup f = false /\ k_std_closed f = false.
-Proof.
-  destruct f as [a b c d e g]; unfold any_flag; cbn. intros H.
-  repeat (apply orb_false_iff in H; destruct H as [H ?]). auto.
-Qed.
-
-Lemma no_flags_ok : any_flag no_flags = false.
-Proof. reflexivity. Qed.
+Lemma any_std f : any_flag f = false -> k_std_closed f = false.
+Proof. destruct f as [a b c]; unfold any_flag; cbn. destruct a, b, c; cbn; intros; try discriminate; auto. Qed.
 
 Section P.
 Variable nc : bool.
 Variable m : msgtable.
-
-Lemma fl_cls_ok w T rs : any_flag (fl_cls nc w T rs) = false ->
-  both_clobber nc w T rs = false /\ selfdup_closed nc w T rs = false.
-Proof.
-  unfold fl_cls. intros H. apply any_for in H. destruct H as [H1 H2].
-  unfold any_flag, fl_both0 in H1; cbn in H1. unfold any_flag, fl_self in H2; cbn in H2.
-  rewrite !orb_false_r in H1. split; auto.
-Qed.
 
 (** ** observers only look at their table pointwise *)
 Lemma put_ext w C C' n s : (forall k, C k = C' k) -> put w C n s = put w C' n s.
@@ -66,7 +50,8 @@ Proof.
   destruct r as [n kd p|n out src|n out|p app|n p|n body|n s]; cbn [setup_redirect touched1]; intros H Hk.
   - destruct (k_open w p (flags_of nc (is_file w p) kd)) as [w1 [id|e]]; inversion H; subst.
     apply tlookup_tset_notin. intros ->. apply Hk. left. reflexivity.
-  - destruct (try_fd L P src); inversion H; subst.
+  - destruct (Nat.eqb src _); [inversion H; subst; reflexivity|].
+    destruct (try_fd L P src); inversion H; subst.
     apply tlookup_tset_notin. intros ->. apply Hk. left. reflexivity.
   - inversion H; subst. apply tlookup_tset_notin. intros ->. apply Hk. left. reflexivity.
   - unfold both_to in H. destruct (k_open w p _) as [w1 [id|e]]; inversion H; subst.
@@ -152,43 +137,37 @@ Qed.
 (** unfolding equations of the specification interpreter *)
 Lemma srun_cmd_group k body rs ctx w T :
   srun_cmd nc m (CGroup k body rs) ctx w T =
-  let fb := fl_cls nc w T rs in
   let ctx' := ctx || match rs with [] => false | _ => true end in
   match spec_apply nc w T rs with
-  | (w1, T1, Some e) => let '(w2, f) := spec_diag m 1 w1 T1 e in (w2, T, for_ fb (for_ fl_compound f))
+  | (w1, T1, Some e) => let '(w2, f) := spec_diag m w1 T1 e in (w2, T, f)
   | (w1, T1, None) =>
       match k with
-      | GBrace => let '(w2, T2, f) := srun_list nc m body ctx' w1 T1 in (w2, restore T T2 (touched rs), for_ fb f)
+      | GBrace => let '(w2, T2, f) := srun_list nc m body ctx' w1 T1 in (w2, restore T T2 (touched rs), f)
       | GLoop => let '(w2, T2, f) := srun_list nc m body ctx' w1 T1 in
-                 let '(w3, T3, f') := srun_list nc m body ctx' w2 T2 in (w3, restore T T3 (touched rs), for_ fb (for_ f f'))
-      | GSubshell => let '(w2, _, f) := srun_list nc m body ctx' w1 T1 in (w2, T, for_ fb f)
+                 let '(w3, T3, f') := srun_list nc m body ctx' w2 T2 in (w3, restore T T3 (touched rs), for_ f f')
+      | GSubshell => let '(w2, _, f) := srun_list nc m body ctx' w1 T1 in (w2, T, f)
       end
   end.
 Proof. reflexivity. Qed.
 
 Lemma srun_cmd_func body drs crs ctx w T :
   srun_cmd nc m (CFunc body drs crs) ctx w T =
-  let fb := fl_cls nc w T crs in
   match spec_apply nc w T crs with
-  | (w1, T1, Some e) => let '(w2, f) := spec_diag m 0 w1 T1 e in (w2, T, for_ fb f)
+  | (w1, T1, Some e) => let '(w2, f) := spec_diag m w1 T1 e in (w2, T, f)
   | (w1, T1, None) =>
-      let fb2 := fl_cls nc w1 T1 drs in
       let ctx' := ctx || match crs ++ drs with [] => false | _ => true end in
       match spec_apply nc w1 T1 drs with
-      | (w2, T2, Some e) => let '(w3, f) := spec_diag m 1 w2 T2 e in (w3, T, for_ fb (for_ fb2 (for_ fl_compound f)))
+      | (w2, T2, Some e) => let '(w3, f) := spec_diag m w2 T2 e in (w3, T, f)
       | (w2, T2, None) =>
           let '(w3, T3, f) := srun_list nc m body ctx' w2 T2 in
-          (w3, restore T T3 (touched (crs ++ drs)), for_ fb (for_ fb2 f))
+          (w3, restore T T3 (touched (crs ++ drs)), f)
       end
   end.
 Proof. reflexivity. Qed.
 
-Lemma compound_flagged f : any_flag (for_ fl_compound f) = true.
-Proof. destruct f as [a b c d e g]. destruct a; reflexivity. Qed.
-
 (** a diagnostic that the specification could deliver is delivered identically by the model *)
 Lemma diag_sim w T L P e w2 f :
-  agree T L P -> spec_diag m 0 w T e = (w2, f) -> any_flag f = false ->
+  agree T L P -> spec_diag m w T e = (w2, f) -> any_flag f = false ->
   simple_redirect_error m w L P e = (w2, FNormal).
 Proof.
   intros HA Hd Hf. unfold spec_diag in Hd. unfold simple_redirect_error.
@@ -198,11 +177,11 @@ Proof.
 Qed.
 
 Lemma refine_ok rs P w L T w1 T1 e :
-  agree T L P -> any_flag (fl_cls nc w T rs) = false -> spec_apply nc w T rs = (w1, T1, e) ->
+  agree T L P -> spec_apply nc w T rs = (w1, T1, e) ->
   exists L1, apply_redirs nc P w L rs = (w1, L1, e) /\ agree T1 L1 P.
 Proof.
-  intros HA Hf Hs. apply fl_cls_ok in Hf. destruct Hf as [Hb Hsd].
-  pose proof (layered_refines_flat rs nc P w L T HA Hb Hsd) as HR. rewrite Hs in HR.
+  intros HA Hs.
+  pose proof (layered_refines_flat rs nc P w L T HA) as HR. rewrite Hs in HR.
   destruct (apply_redirs nc P w L rs) as [[w' L1] e']. destruct HR as [-> [-> HA1]]. exists L1. auto.
 Qed.
 
@@ -211,7 +190,7 @@ Lemma action_sim w T L P a w2 f :
 Proof.
   intros HA Hs Hf. destruct a as [tag|tag]; cbn [spec_action run_action] in *; inversion Hs; subst.
   - apply echo_ext. intros k. symmetry. apply HA.
-  - apply probe_ext. intros k. apply any_std in Hf. destruct Hf as [Hd Hc].
+  - apply probe_ext. intros k. apply any_std in Hf.
     apply child_sees_view_outside_known; auto.
 Qed.
 
@@ -223,39 +202,37 @@ Proof.
   induction c using cmd_ind2; intros ctx w P L T ws Ts f HA HL Hs Hf.
   - (* simple command *)
     cbn [srun_cmd] in Hs. destruct (spec_apply nc w T rs) as [[w1 T1] e] eqn:Es.
+    destruct (refine_ok rs P w L T w1 T1 e HA Es) as [L1 [Ea HA1]].
     destruct e as [e|].
-    + destruct (spec_diag m 0 w1 T1 e) as [w2 f2] eqn:Ed. injection Hs as <- <- <-. apply any_for in Hf. destruct Hf as [Hf1 Hf2].
-      destruct (refine_ok rs P w L T w1 T1 (Some e) HA Hf1 Es) as [L1 [Ea HA1]].
-      exists P. cbn [run_cmd]. rewrite Ea. rewrite (diag_sim w1 T1 L1 P e w2 f2 HA1 Ed Hf2). auto.
-    + destruct (spec_action m w1 T1 a) as [w2 f2] eqn:Ed. injection Hs as <- <- <-. apply any_for in Hf. destruct Hf as [Hf1 Hf2].
-      destruct (refine_ok rs P w L T w1 T1 None HA Hf1 Es) as [L1 [Ea HA1]].
-      exists P. cbn [run_cmd]. rewrite Ea. rewrite (action_sim w1 T1 L1 P a w2 f2 HA1 Ed Hf2). auto.
+    + destruct (spec_diag m w1 T1 e) as [w2 f2] eqn:Ed. injection Hs as <- <- <-.
+      exists P. cbn [run_cmd]. rewrite Ea. rewrite (diag_sim w1 T1 L1 P e w2 f2 HA1 Ed Hf). auto.
+    + destruct (spec_action m w1 T1 a) as [w2 f2] eqn:Ed. injection Hs as <- <- <-.
+      exists P. cbn [run_cmd]. rewrite Ea. rewrite (action_sim w1 T1 L1 P a w2 f2 HA1 Ed Hf). auto.
   - (* exec *)
     cbn [srun_cmd] in Hs. destruct (spec_apply nc w T rs) as [[w1 T1] e] eqn:Es.
+    destruct (refine_ok rs P w L T w1 T1 e HA Es) as [L1 [Ea HA1]].
     destruct e as [e|].
-    + destruct (spec_diag m 0 w1 T1 e) as [w2 f2] eqn:Ed. injection Hs as <- <- <-. apply any_for in Hf. destruct Hf as [Hf1 Hf2].
-      destruct (refine_ok rs P w L T w1 T1 (Some e) HA Hf1 Es) as [L1 [Ea HA1]].
-      exists P. cbn [run_cmd]. rewrite Ea. rewrite (diag_sim w1 T1 L1 P e w2 f2 HA1 Ed Hf2). auto.
-    + injection Hs as <- <- <-. apply any_for in Hf. destruct Hf as [Hf1 Hf2].
-      destruct ctx; [cbn in Hf2; discriminate|]. specialize (HL eq_refl). subst L.
-      destruct (refine_ok rs P w [] T w1 T1 None HA Hf1 Es) as [L1 [Ea HA1]].
+    + destruct (spec_diag m w1 T1 e) as [w2 f2] eqn:Ed. injection Hs as <- <- <-.
+      exists P. cbn [run_cmd]. rewrite Ea. rewrite (diag_sim w1 T1 L1 P e w2 f2 HA1 Ed Hf). auto.
+    + injection Hs as <- <- <-.
+      destruct ctx; [cbn in Hf; discriminate|]. specialize (HL eq_refl). subst L.
       exists (materialize L1 P). cbn [run_cmd]. rewrite Ea. split; auto. split; [|discriminate].
       intros k. rewrite HA1. rewrite try_fd_nil. rewrite materialize_view. reflexivity.
   - (* group *)
     rewrite srun_cmd_group in Hs. cbv zeta in Hs.
     destruct (spec_apply nc w T rs) as [[w1 T1] e] eqn:Es.
+    destruct (refine_ok rs P w L T w1 T1 e HA Es) as [L1 [Ea HA1]].
     destruct e as [e|].
-    { destruct (spec_diag m 1 w1 T1 e) as [w2 f2]. injection Hs as <- <- <-. apply any_for in Hf. destruct Hf as [_ Hf].
-      rewrite compound_flagged in Hf. discriminate. }
+    { destruct (spec_diag m w1 T1 e) as [w2 f2] eqn:Ed. injection Hs as <- <- <-.
+      exists P. rewrite run_cmd_group, Ea. rewrite (diag_sim w1 T1 L1 P e w2 f2 HA1 Ed Hf). auto. }
     set (ctx' := ctx || match rs with [] => false | _ :: _ => true end) in *.
     assert (HB := sim_list_of body H).
-    assert (Hctx' : forall L1, (rs = [] -> L1 = L) -> ctx' = false -> L1 = []).
-    { intros L1 HL1 Hc. unfold ctx' in Hc. apply orb_false_iff in Hc. destruct Hc as [Hc1 Hc2].
-      destruct rs; [|discriminate]. rewrite HL1; auto. }
-    assert (Hfin : forall wx L1 T2 P2,
-               apply_redirs nc P w L rs = (wx, L1, None) -> agree T2 L1 P2 -> (ctx' = true -> P2 = P) ->
+    assert (HL1 : ctx' = false -> L1 = []).
+    { intros Hc. unfold ctx' in Hc. apply orb_false_iff in Hc. destruct Hc as [Hc1 Hc2].
+      destruct rs; [|discriminate]. apply apply_nil_layer in Ea. destruct Ea as [-> _]. auto. }
+    assert (Hfin : forall T2 P2, agree T2 L1 P2 -> (ctx' = true -> P2 = P) ->
                agree (restore T T2 (touched rs)) L P2 /\ (ctx = true -> P2 = P)).
-    { intros wx L1 T2 P2 Ea A2 K2. split.
+    { intros T2 P2 A2 K2. split.
       - destruct rs as [|r rs'].
         + apply apply_nil_layer in Ea. destruct Ea as [-> _]. exact A2.
         + assert (P2 = P) as -> by (apply K2; unfold ctx'; apply orb_true_r).
@@ -264,50 +241,40 @@ Proof.
     destruct k.
     + (* brace *)
       destruct (srun_list nc m body ctx' w1 T1) as [[w2 T2] f2] eqn:E2. injection Hs as <- <- <-.
-      apply any_for in Hf. destruct Hf as [Hf1 Hf2].
-      destruct (refine_ok rs P w L T w1 T1 None HA Hf1 Es) as [L1 [Ea HA1]].
-      destruct (HB ctx' w1 P L1 T1 w2 T2 f2 HA1 (Hctx' L1 (fun E => proj1 (apply_nil_layer P w L w1 L1 None (eq_ind _ (fun r => apply_redirs nc P w L r = _) Ea _ E)))) E2 Hf2)
-        as [P2 [R2 [A2 K2]]].
-      exists P2. rewrite run_cmd_group, Ea, R2. split; auto. eapply Hfin; eauto.
+      destruct (HB ctx' w1 P L1 T1 w2 T2 f2 HA1 HL1 E2 Hf) as [P2 [R2 [A2 K2]]].
+      exists P2. rewrite run_cmd_group, Ea, R2. split; auto.
     + (* subshell *)
       destruct (srun_list nc m body ctx' w1 T1) as [[w2 T2] f2] eqn:E2. injection Hs as <- <- <-.
-      apply any_for in Hf. destruct Hf as [Hf1 Hf2].
-      destruct (refine_ok rs P w L T w1 T1 None HA Hf1 Es) as [L1 [Ea HA1]].
-      destruct (HB ctx' w1 P L1 T1 w2 T2 f2 HA1 (Hctx' L1 (fun E => proj1 (apply_nil_layer P w L w1 L1 None (eq_ind _ (fun r => apply_redirs nc P w L r = _) Ea _ E)))) E2 Hf2)
-        as [P2 [R2 [A2 K2]]].
+      destruct (HB ctx' w1 P L1 T1 w2 T2 f2 HA1 HL1 E2 Hf) as [P2 [R2 [A2 K2]]].
       exists P. rewrite run_cmd_group, Ea, R2. auto.
     + (* loop *)
       destruct (srun_list nc m body ctx' w1 T1) as [[w2 T2] f2] eqn:E2.
       destruct (srun_list nc m body ctx' w2 T2) as [[w3 T3] f3] eqn:E3. injection Hs as <- <- <-.
-      apply any_for in Hf. destruct Hf as [Hf1 Hf2]. apply any_for in Hf2. destruct Hf2 as [Hf2 Hf3].
-      destruct (refine_ok rs P w L T w1 T1 None HA Hf1 Es) as [L1 [Ea HA1]].
-      pose proof (Hctx' L1 (fun E => proj1 (apply_nil_layer P w L w1 L1 None (eq_ind _ (fun r => apply_redirs nc P w L r = _) Ea _ E)))) as HL1.
+      apply any_for in Hf. destruct Hf as [Hf2 Hf3].
       destruct (HB ctx' w1 P L1 T1 w2 T2 f2 HA1 HL1 E2 Hf2) as [P2 [R2 [A2 K2]]].
       destruct (HB ctx' w2 P2 L1 T2 w3 T3 f3 A2 HL1 E3 Hf3) as [P3 [R3 [A3 K3]]].
       exists P3. rewrite run_cmd_group, Ea, R2, R3. split; auto.
-      eapply Hfin; eauto. intros Hc. rewrite (K3 Hc). apply K2; auto.
+      apply Hfin; auto. intros Hc. rewrite (K3 Hc). apply K2; auto.
   - (* function definition and call *)
     rewrite srun_cmd_func in Hs. cbv zeta in Hs.
     destruct (spec_apply nc w T crs) as [[w1 T1] e] eqn:Es.
+    destruct (refine_ok crs P w L T w1 T1 e HA Es) as [L1 [Ea HA1]].
     destruct e as [e|].
-    { destruct (spec_diag m 0 w1 T1 e) as [w2 f2] eqn:Ed. injection Hs as <- <- <-. apply any_for in Hf. destruct Hf as [Hf1 Hf2].
-      destruct (refine_ok crs P w L T w1 T1 (Some e) HA Hf1 Es) as [L1 [Ea HA1]].
-      exists P. rewrite run_cmd_func, Ea. rewrite (diag_sim w1 T1 L1 P e w2 f2 HA1 Ed Hf2). auto. }
+    { destruct (spec_diag m w1 T1 e) as [w2 f2] eqn:Ed. injection Hs as <- <- <-.
+      exists P. rewrite run_cmd_func, Ea. rewrite (diag_sim w1 T1 L1 P e w2 f2 HA1 Ed Hf). auto. }
     destruct (spec_apply nc w1 T1 drs) as [[w2 T2] e] eqn:Es2.
+    destruct (refine_ok drs P w1 L1 T1 w2 T2 e HA1 Es2) as [L2 [Ea2 HA2]].
     destruct e as [e|].
-    { destruct (spec_diag m 1 w2 T2 e) as [w3 f3]. injection Hs as <- <- <-. apply any_for in Hf. destruct Hf as [_ Hf].
-      apply any_for in Hf. destruct Hf as [_ Hf]. rewrite compound_flagged in Hf. discriminate. }
+    { destruct (spec_diag m w2 T2 e) as [w3 f3] eqn:Ed. injection Hs as <- <- <-.
+      exists P. rewrite run_cmd_func, Ea, Ea2. rewrite (diag_sim w2 T2 L2 P e w3 f3 HA2 Ed Hf). auto. }
     set (ctx' := ctx || match crs ++ drs with [] => false | _ :: _ => true end) in *.
     destruct (srun_list nc m body ctx' w2 T2) as [[w3 T3] f3] eqn:E3. injection Hs as <- <- <-.
-    apply any_for in Hf. destruct Hf as [Hf1 Hf]. apply any_for in Hf. destruct Hf as [Hf2 Hf3].
-    destruct (refine_ok crs P w L T w1 T1 None HA Hf1 Es) as [L1 [Ea HA1]].
-    destruct (refine_ok drs P w1 L1 T1 w2 T2 None HA1 Hf2 Es2) as [L2 [Ea2 HA2]].
     assert (HB := sim_list_of body H).
     assert (HL2 : ctx' = false -> L2 = []).
     { intros Hc. unfold ctx' in Hc. apply orb_false_iff in Hc. destruct Hc as [Hc1 Hc2].
       destruct crs; [|discriminate]. destruct drs; [|discriminate].
       apply apply_nil_layer in Ea. apply apply_nil_layer in Ea2. destruct Ea as [-> _], Ea2 as [-> _]. auto. }
-    destruct (HB ctx' w2 P L2 T2 w3 T3 f3 HA2 HL2 E3 Hf3) as [P3 [R3 [A3 K3]]].
+    destruct (HB ctx' w2 P L2 T2 w3 T3 f3 HA2 HL2 E3 Hf) as [P3 [R3 [A3 K3]]].
     exists P3. rewrite run_cmd_func, Ea, Ea2, R3. split; auto. split.
     + destruct (crs ++ drs) as [|r rs'] eqn:Ecd.
       * apply app_eq_nil in Ecd. destruct Ecd as [-> ->].
